@@ -1729,6 +1729,10 @@ func (sp *ServiceProvider) ValidateLogoutResponseForm(postFormData string) error
 		retErr.PrivateErr = errors.New("invalid xml: no root")
 		return retErr
 	}
+	if err := nothingBesideRoot(doc); err != nil {
+		retErr.PrivateErr = err
+		return retErr
+	}
 
 	if err := sp.validateSignature(doc.Root()); err != nil {
 		retErr.PrivateErr = err
@@ -1778,6 +1782,10 @@ func (sp *ServiceProvider) ValidateLogoutResponseRedirect(queryParameterData str
 		retErr.PrivateErr = errors.New("invalid xml: no root")
 		return retErr
 	}
+	if err := nothingBesideRoot(doc); err != nil {
+		retErr.PrivateErr = err
+		return retErr
+	}
 
 	if err := sp.validateSignature(doc.Root()); err != nil {
 		retErr.PrivateErr = err
@@ -1793,6 +1801,27 @@ func (sp *ServiceProvider) ValidateLogoutResponseRedirect(queryParameterData str
 }
 
 // validateLogoutResponse validates the LogoutResponse fields. Returns a nil error if the LogoutResponse is valid.
+// nothingBesideRoot returns an error if the document holds anything but white space, comments and
+// processing instructions beside its root element: neither the XML reader nor the round-trip
+// validator refuses a second element or text after the root, only the root is examined, and a
+// message followed by such content is not a well-formed document.
+func nothingBesideRoot(doc *etree.Document) error {
+	root := doc.Root()
+	for _, child := range doc.Child {
+		switch child := child.(type) {
+		case *etree.Element:
+			if child != root {
+				return errors.New("invalid xml: content after the root element")
+			}
+		case *etree.CharData:
+			if !child.IsWhitespace() {
+				return errors.New("invalid xml: text outside the root element")
+			}
+		}
+	}
+	return nil
+}
+
 func (sp *ServiceProvider) validateLogoutResponse(resp *LogoutResponse) error {
 	if resp.Destination != sp.SloURL.String() {
 		return fmt.Errorf("`Destination` does not match SloURL (expected %q)", sp.SloURL.String())
